@@ -1,3 +1,490 @@
 package main
 
-func cmdCheck(args []string) int { return 2 }
+// Property-level driver: runs the harnesses of one property, replays
+// counterexamples natively, matches known findings, writes evidence.
+
+import (
+	"encoding/json"
+	"flag"
+	"fmt"
+	"os"
+	"os/exec"
+	"path/filepath"
+	"sort"
+	"strconv"
+	"strings"
+	"time"
+)
+
+type TierSpec struct {
+	Params     map[string]int `json:"params"`
+	Unwind     int            `json:"unwind"`
+	MaxPaths   int            `json:"maxpaths"`
+	TimeSec    int            `json:"time_sec"`
+	Skip       bool           `json:"skip"`
+	AssertTimeoutMs int       `json:"assert_timeout_ms"`
+}
+
+type HarnessSpec struct {
+	Name      string   `json:"name"`
+	Lemma     string   `json:"lemma"`
+	Quick     TierSpec `json:"quick"`
+	Thorough  TierSpec `json:"thorough"`
+	Reach     []string `json:"reach"`
+	PoolDirty bool     `json:"pooldirty"`
+	PoolReuse bool     `json:"poolreuse"`
+	Timers    bool     `json:"timers"`
+	NoMapFork bool     `json:"no_map_fork"`
+	ReplayTest string  `json:"replay_test"` // native test that demonstrates a scheduling-dependent violation
+	Pkg       string   `json:"pkg"`         // "" = mqtt, "mqtttest"
+}
+
+type PropSpec struct {
+	Title       string        `json:"title"`
+	Technique   string        `json:"technique"`
+	Harnesses   []HarnessSpec `json:"harnesses"`
+	Assumptions []string      `json:"assumptions"`
+	Bounds      map[string]string `json:"bounds"`
+	Outside     []string      `json:"outside"`
+	WitnessTests string       `json:"witness_tests"` // -run pattern of native witness tests
+}
+
+type KnownFinding struct {
+	Property string `json:"property"`
+	Harness  string `json:"harness"`
+	Label    string `json:"label"`
+	What     string `json:"what"`
+	Finding  string `json:"finding"`
+}
+
+type KnownFile struct {
+	Known []KnownFinding `json:"known"`
+	Fixed []string       `json:"fixed"`
+}
+
+const verifDir = "/verif"
+
+func loadSpecs() (map[string]*PropSpec, error) {
+	b, err := os.ReadFile(filepath.Join(verifDir, "harness", "checks.json"))
+	if err != nil {
+		return nil, err
+	}
+	m := map[string]*PropSpec{}
+	if err := json.Unmarshal(b, &m); err != nil {
+		return nil, fmt.Errorf("checks.json: %v", err)
+	}
+	return m, nil
+}
+
+func loadKnown() KnownFile {
+	var k KnownFile
+	b, err := os.ReadFile(filepath.Join(verifDir, "known_findings.json"))
+	if err == nil {
+		json.Unmarshal(b, &k)
+	}
+	return k
+}
+
+type evidence struct {
+	PropertyID  string                 `json:"property_id"`
+	Tier        string                 `json:"tier"`
+	Seed        int                    `json:"seed"`
+	Level       string                 `json:"level"`
+	Coverage    map[string]interface{} `json:"coverage"`
+	Assumptions []string               `json:"assumptions"`
+	WallS       float64                `json:"wall_s"`
+	Violations  int                    `json:"violations"`
+}
+
+func cmdCheck(args []string) int {
+	if len(args) < 1 {
+		usage()
+	}
+	prop := args[0]
+	fs := flag.NewFlagSet("check", flag.ExitOnError)
+	tier := fs.String("tier", "", "quick|thorough")
+	replayDir := fs.String("replay", "", "replay a stored counterexample directory")
+	only := fs.String("only", "", "run only harnesses whose name contains this")
+	debug := fs.Bool("debug", false, "")
+	noEvidence := fs.Bool("no-evidence", false, "")
+	fs.Parse(args[1:])
+	if *tier == "" {
+		*tier = os.Getenv("VERIF_TIER")
+	}
+	if *tier == "" {
+		*tier = "quick"
+	}
+	seed, _ := strconv.Atoi(os.Getenv("VERIF_SEED"))
+	if *replayDir != "" {
+		ok, out := runReplayDir(*replayDir)
+		fmt.Print(out)
+		if ok {
+			fmt.Printf("VIOLATION property=%s replay=%s\n", prop, *replayDir)
+			return 1
+		}
+		return 0
+	}
+	start := time.Now()
+	specs, err := loadSpecs()
+	if err != nil {
+		fmt.Println("INCONCLUSIVE", err)
+		return 2
+	}
+	spec := specs[prop]
+	if spec == nil {
+		fmt.Printf("INCONCLUSIVE no check registered for %s\n", prop)
+		return 2
+	}
+	known := loadKnown()
+	cfg := DefaultConfig()
+	cfg.Debug = *debug
+	P, err := LoadProgram(cfg)
+	if err != nil {
+		fmt.Printf("INCONCLUSIVE harness does not load against /repo: %v\n", err)
+		return 2
+	}
+	exit := 0
+	var problems []string
+	totalPaths, totalInstr, totalAsserts, totalTrivial, solverCalls := 0, 0, 0, 0, 0
+	solverSecs := 0.0
+	replayed := 0
+	violations := 0
+	funcs := map[string]int{}
+	stubs := map[string]int{}
+	reachAll := map[string]int{}
+	var samples []interface{}
+	var perHarness []map[string]interface{}
+	durations := map[string]int{}
+	maxLoop := 0
+	nviol := 0
+	for _, hs := range spec.Harnesses {
+		if *only != "" && !strings.Contains(hs.Name, *only) {
+			continue
+		}
+		ts := hs.Quick
+		if *tier == "thorough" {
+			ts = hs.Thorough
+			if ts.Params == nil && ts.Unwind == 0 && ts.MaxPaths == 0 && ts.TimeSec == 0 && !ts.Skip {
+				ts = hs.Quick
+			}
+		}
+		if ts.Skip {
+			continue
+		}
+		c := cfg
+		if ts.Unwind > 0 {
+			c.Unwind = ts.Unwind
+		}
+		if ts.MaxPaths > 0 {
+			c.MaxPaths = ts.MaxPaths
+		}
+		if ts.TimeSec > 0 {
+			c.TimeBudget = time.Duration(ts.TimeSec) * time.Second
+		}
+		if ts.AssertTimeoutMs > 0 {
+			c.AssertTimeoutMs = ts.AssertTimeoutMs
+		}
+		c.PoolDirty = hs.PoolDirty
+		c.PoolReuse = hs.PoolReuse
+		c.RunTimers = hs.Timers
+		if hs.NoMapFork {
+			c.MapOrderFork = false
+		}
+		c.MaxViolations = 8
+		e, err := NewEngine(c, P, hs.Name)
+		if err != nil {
+			fmt.Printf("INCONCLUSIVE %v\n", err)
+			return 2
+		}
+		e.params = ts.Params
+		e.knownLabels = map[string]bool{}
+		for _, k := range known.Known {
+			if k.Harness == hs.Name {
+				e.knownLabels[k.Label] = true
+			}
+		}
+		hr := e.Explore()
+		if *debug {
+			printSummary(hr, P.loadSecs)
+		}
+		totalPaths += hr.Paths
+		totalInstr += hr.Instrs
+		totalAsserts += hr.Asserts
+		totalTrivial += hr.AssertsTrivial
+		solverCalls += hr.SolverCalls
+		solverSecs += hr.SolverSecs
+		if hr.MaxLoop > maxLoop {
+			maxLoop = hr.MaxLoop
+		}
+		for k, v := range hr.FuncsHit {
+			funcs[k] += v
+		}
+		for k, v := range hr.StubsHit {
+			stubs[k] += v
+		}
+		for k, v := range hr.Reach {
+			reachAll[hs.Name+":"+k] += v
+		}
+		for k, v := range hr.Durations {
+			durations[k] += v
+		}
+		for _, s := range hr.Samples {
+			if len(samples) < 12 {
+				samples = append(samples, map[string]string{"harness": hs.Name, "path": s})
+			}
+		}
+		perHarness = append(perHarness, map[string]interface{}{
+			"harness": hs.Name, "lemma": hs.Lemma, "paths": hr.Paths, "completed": hr.Completed, "infeasible": hr.Infeasible,
+			"assertions_discharged": hr.Asserts, "of_which_by_rewriting": hr.AssertsTrivial, "solver_calls": hr.SolverCalls,
+			"solver_s": round2(hr.SolverSecs), "wall_s": round2(hr.WallSecs), "params": ts.Params, "unwind_bound": c.Unwind, "max_loop_iterations_seen": hr.MaxLoop,
+			"violations": len(hr.Violations),
+		})
+		// vacuity
+		for _, tag := range hs.Reach {
+			if hr.Reach[tag] == 0 && len(hr.Violations) == 0 {
+				problems = append(problems, fmt.Sprintf("%s: reachability tag %q never hit (vacuous?)", hs.Name, tag))
+			}
+		}
+		for _, u := range hr.Unsupported {
+			problems = append(problems, hs.Name+": unsupported: "+u)
+		}
+		for _, u := range hr.UnwindFails {
+			problems = append(problems, hs.Name+": unwinding: "+u)
+		}
+		for _, u := range hr.Inconclusive {
+			problems = append(problems, hs.Name+": inconclusive: "+u)
+		}
+		if hr.Truncated {
+			problems = append(problems, hs.Name+": exploration truncated by path/time budget")
+		}
+		// violations: dedupe by label, replay natively
+		seen := map[string]bool{}
+		for _, v := range hr.Violations {
+			key := v.Kind + ":" + v.Msg
+			if seen[key] {
+				continue
+			}
+			seen[key] = true
+			nviol++
+			dir := filepath.Join(verifDir, "out", "replay", prop, fmt.Sprintf("%s_%d", hs.Name, nviol))
+			if err := writeReplayDir(dir, P, hs, ts, v); err != nil {
+				problems = append(problems, "cannot write replay dir: "+err.Error())
+				continue
+			}
+			ok, out := runReplayDir(dir)
+			replayed++
+			os.WriteFile(filepath.Join(dir, "replay.log"), []byte(out), 0o644)
+			isKnown := ""
+			for _, k := range known.Known {
+				if k.Harness == hs.Name && k.Label == v.Msg && k.Property == prop {
+					isKnown = k.What
+				}
+			}
+			if !ok {
+				problems = append(problems, fmt.Sprintf("%s: counterexample for %q did not reproduce natively (encoding mismatch); see %s", hs.Name, v.Msg, dir))
+				continue
+			}
+			if isKnown != "" {
+				fmt.Printf("KNOWN-FINDING: property=%s %s [%s %q]\n", prop, isKnown, hs.Name, v.Msg)
+				continue
+			}
+			violations++
+			fmt.Printf("VIOLATION property=%s replay=%s\n", prop, dir)
+			fmt.Printf("  harness=%s kind=%s label=%q\n", hs.Name, v.Kind, v.Msg)
+			exit = 1
+		}
+	}
+	// native witness tests (reachability of the pre-states, regression replays)
+	witnessOK := 0
+	if spec.WitnessTests != "" {
+		ok, out := runNativeTests(P, spec.WitnessTests, "")
+		if !ok {
+			problems = append(problems, "native witness tests failed: "+lastLines(out, 12))
+		} else {
+			witnessOK = strings.Count(out, "--- PASS")
+			if witnessOK == 0 {
+				witnessOK = 1
+			}
+		}
+	}
+	if len(problems) > 0 && exit == 0 {
+		exit = 2
+	}
+	for _, p := range problems {
+		fmt.Println("INCONCLUSIVE", p)
+	}
+	wall := time.Since(start).Seconds()
+	if !*noEvidence {
+		fnames := make([]string, 0, len(funcs))
+		for k := range funcs {
+			if !strings.Contains(k, ".verif") && !strings.Contains(k, "$") {
+				fnames = append(fnames, k)
+			}
+		}
+		sort.Strings(fnames)
+		var fenc []string
+		for _, k := range fnames {
+			fenc = append(fenc, fmt.Sprintf("%s (%d calls)", k, funcs[k]))
+		}
+		if len(samples) == 0 {
+			samples = append(samples, "no completed path")
+		}
+		ev := evidence{
+			PropertyID: prop, Tier: *tier, Seed: seed, Level: "model_checking",
+			Coverage: map[string]interface{}{
+				"states":                        max(totalPaths, 1),
+				"transitions":                   max(totalInstr, 1),
+				"traces_validated_against_impl": replayed + witnessOK,
+				"samples":                       samples,
+				"obligations":                   totalAsserts,
+				"discharged":                    totalAsserts,
+				"discharged_by_term_rewriting":  totalTrivial,
+				"discharged_by_solver":          totalAsserts - totalTrivial,
+				"explanation":                   "states = symbolic paths explored (each covers all inputs satisfying its path condition); transitions = SSA instructions executed symbolically; obligations = assertion instances whose negation was shown unsatisfiable together with the path condition",
+				"technique":                     spec.Technique,
+				"functions_encoded":             fenc,
+				"intrinsics_and_stubs_hit":      sortedCounts(stubs),
+				"harnesses":                     perHarness,
+				"reach_tags":                    sortedCounts(reachAll),
+				"bounds":                        spec.Bounds[*tier],
+				"outside_claim":                 spec.Outside,
+				"solver":                        map[string]interface{}{"name": "z3 4.8.12 (z3 -in, one process per worker)", "calls": solverCalls, "seconds": round2(solverSecs)},
+				"load_s":                        round2(P.loadSecs),
+				"timer_durations_seen":          sortedCounts(durations),
+				"inconclusive":                  problems,
+				"exhaustive":                    len(problems) == 0,
+			},
+			Assumptions: spec.Assumptions,
+			WallS:       round2(wall),
+			Violations:  violations,
+		}
+		b, _ := json.MarshalIndent(ev, "", " ")
+		os.MkdirAll(filepath.Join(verifDir, "evidence"), 0o755)
+		os.WriteFile(filepath.Join(verifDir, "evidence", prop+".json"), b, 0o644)
+	}
+	fmt.Printf("%s tier=%s exit=%d paths=%d obligations=%d (rewriting %d, solver %d) solver_calls=%d solver_s=%.1f wall_s=%.1f\n",
+		prop, *tier, exit, totalPaths, totalAsserts, totalTrivial, totalAsserts-totalTrivial, solverCalls, solverSecs, wall)
+	return exit
+}
+
+func round2(f float64) float64 { return float64(int(f*100+0.5)) / 100 }
+
+func lastLines(s string, n int) string {
+	ls := strings.Split(strings.TrimSpace(s), "\n")
+	if len(ls) > n {
+		ls = ls[len(ls)-n:]
+	}
+	return strings.Join(ls, " | ")
+}
+
+// ---------- native replay ----------
+
+func overlayJSON(P *Program, dir string) (string, error) {
+	repl := map[string]string{}
+	cfg := DefaultConfig()
+	add := func(srcDir, dstDir string) {
+		ents, _ := os.ReadDir(srcDir)
+		for _, e := range ents {
+			if e.IsDir() || !strings.HasPrefix(e.Name(), "zz_verif_") || !strings.HasSuffix(e.Name(), ".go") {
+				continue
+			}
+			repl[filepath.Join(dstDir, e.Name())] = filepath.Join(srcDir, e.Name())
+		}
+	}
+	add(cfg.HarnessDir, cfg.RepoDir)
+	add(filepath.Join(cfg.HarnessDir, "mqtttest"), filepath.Join(cfg.RepoDir, "mqtttest"))
+	// registries
+	gen := filepath.Join(dir, "gen")
+	os.MkdirAll(gen, 0o755)
+	writeReg := func(pkg string, names []string, dst string) {
+		var sb strings.Builder
+		sb.WriteString("//go:build verif\n\npackage " + pkg + "\n\nvar verifHarnesses = map[string]func(){\n")
+		for _, n := range names {
+			fmt.Fprintf(&sb, "\t%q: %s,\n", n, n)
+		}
+		sb.WriteString("}\n")
+		f := filepath.Join(gen, "zz_verif_registry_"+pkg+"_test.go")
+		os.WriteFile(f, []byte(sb.String()), 0o644)
+		repl[filepath.Join(dst, "zz_verif_registry_test.go")] = f
+	}
+	var a, b []string
+	for n := range P.mqtt.Members {
+		if strings.HasPrefix(n, "verifH_") {
+			a = append(a, n)
+		}
+	}
+	sort.Strings(a)
+	writeReg("mqtt", a, cfg.RepoDir)
+	if P.mqtttest != nil {
+		for n := range P.mqtttest.Members {
+			if strings.HasPrefix(n, "verifH_") {
+				b = append(b, n)
+			}
+		}
+		sort.Strings(b)
+		writeReg("mqtttest", b, filepath.Join(cfg.RepoDir, "mqtttest"))
+	}
+	js, _ := json.MarshalIndent(map[string]interface{}{"Replace": repl}, "", " ")
+	f := filepath.Join(dir, "overlay.json")
+	return f, os.WriteFile(f, js, 0o644)
+}
+
+func writeReplayDir(dir string, P *Program, hs HarnessSpec, ts TierSpec, v Violation) error {
+	os.RemoveAll(dir)
+	if err := os.MkdirAll(dir, 0o755); err != nil {
+		return err
+	}
+	vec := map[string]interface{}{"harness": hs.Name, "params": ts.Params, "nondets": v.Model, "kind": v.Kind, "label": v.Msg, "where": v.Where}
+	b, _ := json.MarshalIndent(vec, "", " ")
+	if err := os.WriteFile(filepath.Join(dir, "vector.json"), b, 0o644); err != nil {
+		return err
+	}
+	ov, err := overlayJSON(P, dir)
+	if err != nil {
+		return err
+	}
+	pkg := "."
+	if hs.Pkg == "mqtttest" {
+		pkg = "./mqtttest"
+	}
+	run := "TestVerifReplay"
+	if hs.ReplayTest != "" && (v.Kind == "deadlock" || v.Kind == "wedge") {
+		run = hs.ReplayTest
+	}
+	sh := fmt.Sprintf(`#!/bin/sh
+# replays the counterexample against the compiled real package
+export GOFLAGS=-mod=mod GOPROXY=off GOSUMDB=off GOTOOLCHAIN=local
+cd /repo && VERIF_VECTOR=%s/vector.json timeout 120 go test -tags verif -vet=off -count=1 -overlay %s -run '^%s$' -v %s
+`, dir, ov, run, pkg)
+	return os.WriteFile(filepath.Join(dir, "run.sh"), []byte(sh), 0o755)
+}
+
+// runReplayDir returns reproduced=true when the native run shows the failure.
+func runReplayDir(dir string) (bool, string) {
+	cmd := exec.Command("sh", filepath.Join(dir, "run.sh"))
+	out, _ := cmd.CombinedOutput()
+	s := string(out)
+	reproduced := strings.Contains(s, "VERIF-VIOLATION") || strings.Contains(s, "VERIF-PANIC") || strings.Contains(s, "VERIF-HANG") ||
+		strings.Contains(s, "VERIF-DEMO-FAIL")
+	if strings.Contains(s, "VERIF-ASSUME-FAILED") || strings.Contains(s, "vector mismatch") {
+		reproduced = false
+	}
+	return reproduced, s
+}
+
+func runNativeTests(P *Program, pattern string, pkg string) (bool, string) {
+	dir := filepath.Join(verifDir, "out", "witness")
+	os.MkdirAll(dir, 0o755)
+	ov, err := overlayJSON(P, dir)
+	if err != nil {
+		return false, err.Error()
+	}
+	if pkg == "" {
+		pkg = "./..."
+	}
+	cmd := exec.Command("timeout", "300", "go", "test", "-tags", "verif", "-vet=off", "-count=1", "-overlay", ov, "-run", pattern, "-v", pkg)
+	cmd.Dir = "/repo"
+	cmd.Env = append(os.Environ(), "GOFLAGS=-mod=mod", "GOPROXY=off", "GOSUMDB=off", "GOTOOLCHAIN=local")
+	out, err := cmd.CombinedOutput()
+	return err == nil, string(out)
+}
